@@ -124,6 +124,20 @@ def wrapKind (e : JS.Expr) : WrapKind :=
   | .un .. => .unaryAction
   | e => .action (matrixRow (exprKind e)).2
 
+/-- `quoteDelims` (pug_parser.go): a `{` that is followed by another `{`, or that ends the text, is emitted as the
+    action `{{"{"}}`; everything else is spliced into the template source as it is. Result: the pieces of source. -/
+def quoteChars : List Char → List Char → List Frag
+  | [], cur => if cur.isEmpty then [] else [.text (String.ofList cur.reverse)]
+  | '{' :: rest, cur =>
+    match rest with
+    | [] | '{' :: _ =>
+      (if cur.isEmpty then [] else [Frag.text (String.ofList cur.reverse)])
+        ++ [.act false false (.print (.lit (.str "{")) false)] ++ quoteChars rest []
+    | _ => quoteChars rest ('{' :: cur)
+  | c :: rest, cur => quoteChars rest (c :: cur)
+
+def textFrag (s : String) : CM (List Frag) := pure (quoteChars s.toList [])
+
 def fmtNumLit (q : Rat) : CM String :=
   if q.den == 1 then pure (toString q.num) else
   match fmtFloatV q with
@@ -138,13 +152,13 @@ def compileBuffered (env : CEnv) (e : JS.Expr) (mustEscape : Bool) : CM (List Fr
     | .num q _ => do pure [.text (← fmtNumLit q)]
     | .str s =>
       if (s.splitOn "${").length > 1 then .error (.domain "string literal containing ${ is interpolated") else
-      pure [.text (stdHtmlEscape s)]
+      pure [.act false false (.print (.lit (.str (stdHtmlEscape s))) false)]
     | .bool b => pure [.text (if b then "true" else "false")]
     | _ => pure []
   | .nullAction => pure [.act false false (.print nullCall false)]
   | .unaryAction =>
     match ← compileExpr env e with
-    | some t => pure [.act false true (.print t false)]
+    | some t => pure [.act false false (.print t false)]
     | none => pure []
   | .action esc =>
     match ← compileExpr env e with
@@ -184,12 +198,6 @@ def isWs (c : Char) : Bool := c == ' ' || c == '\t' || c == '\r' || c == '\n'
 
 def trimLeftWs (s : String) : String := String.ofList (s.toList.dropWhile isWs)
 def trimRightWs (s : String) : String := String.ofList (s.toList.reverse.dropWhile isWs).reverse
-
-/-- literal text as the Text node is spliced into the source; the delimiter quoting itself is modelled separately
-    (PugModel.Tpl.Quote); here a text that needs quoting is outside the executor model's domain -/
-def textFrag (s : String) : CM (List Frag) :=
-  if (s.splitOn "{{").length > 1 || (s.splitOn "}}").length > 1 then .error (.domain "text containing template delimiters")
-  else pure [.text s]
 
 mutual
 partial def compileNode (env : CEnv) (n : Node) : CM (List Frag) := do
